@@ -4,6 +4,7 @@
 package zzverif
 
 import (
+	"database/sql"
 	"encoding/hex"
 	"encoding/json"
 	"fmt"
@@ -32,6 +33,7 @@ func Reset() {
 	params = nil
 	counters = map[string]int{}
 	Failures = nil
+	Notes = nil
 	Observed = nil
 	Defaulted = 0
 }
@@ -88,7 +90,8 @@ func ReplayMain(harnesses map[string]func()) {
 		values = c.Values
 		params = c.Params
 		skipped, failures, panicked := runCase(f)
-		out := map[string]any{"i": i, "skipped": skipped, "failures": failures, "observed": Observed, "defaulted": Defaulted}
+		cleanupTemp()
+		out := map[string]any{"i": i, "skipped": skipped, "failures": failures, "observed": Observed, "defaulted": Defaulted, "notes": Notes}
 		if panicked != nil {
 			out["panic"] = fmt.Sprint(panicked)
 		}
@@ -220,4 +223,69 @@ func Reach(name string) {}
 // Observe records a value for the differential translator validation.
 func Observe(name string, v any) {
 	Observed = append(Observed, fmt.Sprintf("%s=%v", name, v))
+}
+
+// Notes are free-form diagnostics recorded natively only (ignored by the engine).
+var Notes []string
+
+// Note records a diagnostic value natively; the engine ignores it.
+func Note(name string, v any) { Notes = append(Notes, fmt.Sprintf("%s=%v", name, v)) }
+
+var tempDirs []string
+
+// TempDB returns the path of a fresh SQLite database file (natively in a temporary directory that is removed at the
+// end of the case; symbolically a fresh store of the SQL model).
+func TempDB(name string) string {
+	d, err := os.MkdirTemp("", "zzverif")
+	if err != nil {
+		panic(err)
+	}
+	tempDirs = append(tempDirs, d)
+	return d + "/" + name + ".sqlite"
+}
+
+func cleanupTemp() {
+	for _, d := range tempDirs {
+		os.RemoveAll(d)
+	}
+	tempDirs = nil
+}
+
+// SQLExecer is the part of *sql.DB used for fault injection.
+type SQLExecer interface {
+	Exec(query string, args ...any) (sql.Result, error)
+}
+
+// FailInsert makes the (n+1)-th INSERT into `table` counted from now (0 = the next one) fail. Natively this installs a
+// counter table and two triggers (RAISE(ABORT)); symbolically it is a fault entry of the SQL model.
+func FailInsert(db SQLExecer, table string, n int) {
+	stmts := []string{
+		`CREATE TABLE IF NOT EXISTS zz_fault_cnt (tbl TEXT PRIMARY KEY, n INTEGER)`,
+		fmt.Sprintf(`INSERT OR REPLACE INTO zz_fault_cnt VALUES ('%s', 0)`, table),
+		fmt.Sprintf(`CREATE TRIGGER zz_fault_%s BEFORE INSERT ON %s WHEN (SELECT n FROM zz_fault_cnt WHERE tbl='%s') = %d BEGIN SELECT RAISE(ABORT, 'zzverif injected fault'); END`, table, table, table, n),
+		fmt.Sprintf(`CREATE TRIGGER zz_cnt_%s AFTER INSERT ON %s BEGIN UPDATE zz_fault_cnt SET n = n+1 WHERE tbl='%s'; END`, table, table, table),
+	}
+	for _, s := range stmts {
+		if _, err := db.Exec(s); err != nil {
+			panic(err)
+		}
+	}
+}
+
+// FailDelete makes every DELETE on `table` fail from now on.
+func FailDelete(db SQLExecer, table string) {
+	if _, err := db.Exec(fmt.Sprintf(`CREATE TRIGGER zz_faultdel_%s BEFORE DELETE ON %s BEGIN SELECT RAISE(ABORT, 'zzverif injected fault'); END`, table, table)); err != nil {
+		panic(err)
+	}
+}
+
+// ClearFaults removes every injected fault.
+func ClearFaults(db SQLExecer, tables ...string) {
+	for _, t := range tables {
+		for _, s := range []string{"DROP TRIGGER IF EXISTS zz_fault_" + t, "DROP TRIGGER IF EXISTS zz_cnt_" + t, "DROP TRIGGER IF EXISTS zz_faultdel_" + t} {
+			if _, err := db.Exec(s); err != nil {
+				panic(err)
+			}
+		}
+	}
 }
